@@ -384,6 +384,13 @@ def _get_expression_leaves(expression: exp.Expr) -> Iterator[exp.Expr]:
 
 def _get_non_expression_leaves(expression: exp.Expr) -> Iterator[tuple[str, t.Any]]:
     for arg, value in expression.args.items():
+        if isinstance(value, IGNORED_LEAF_EXPRESSION_TYPES) or (
+            isinstance(value, list) and isinstance(seq_get(value, 0), IGNORED_LEAF_EXPRESSION_TYPES)
+        ):
+            # Ignored leaves are not diffed as nodes, so they count as values of their parent
+            yield (arg, value)
+            continue
+
         if (
             value is None
             or isinstance(value, exp.Expr)
